@@ -69,11 +69,14 @@ inline int RunOne(const char* id, const Opts& opts, Monitor& mon, const std::str
     return g;
 }
 
-inline int Main(int argc, char** argv, const char* id, const std::vector<std::pair<std::string, Opts>>& configs, Monitor& mon)
+using Configs = std::vector<std::pair<std::string, Opts>>;
+// configure() is called after vx::init (so it may look at vx::thorough()) and returns the node configurations to explore
+inline int Main(int argc, char** argv, const char* id, const std::function<Configs()>& configure, Monitor& mon)
 {
     vx::init(argc, argv, id, "model_checking", 150, 1400);
     vx::scratch_dir(); // TMPDIR -> tmpfs
     auto& E = vx::ev();
+    Configs configs = configure();
     if (!vx::ctx().replay.empty()) {
         // the replay file names the configuration in its key line; default: first
         std::ifstream f(vx::ctx().replay);
